@@ -152,8 +152,21 @@ def run_one(case, mod=None):
         try:
             eff = bool(res.sim is not None and
                        res.sim.stats.get('txwin_effective'))
+            late_reset = None
             for v in mod.evaluate(case, res):
                 sig = (v[2] if len(v) > 2 else '')
+                if late_reset is None:
+                    # a task execution that had already left WAITING was put
+                    # back to WAITING by a later route (open finding F3)
+                    try:
+                        from checks import trace as _trace
+                        late_reset = bool(
+                            res.recorder is not None and
+                            _trace.had_late_route_reset(res))
+                    except Exception:
+                        late_reset = False
+                if late_reset and 'reset_by_late_route' not in sig:
+                    sig = (sig + ' reset_by_late_route').strip()
                 if eff:
                     # a transaction of this run was parked before its first
                     # write while another one committed (overlap window)
